@@ -8,7 +8,7 @@
 //! reports a shard that died, together with this message).
 
 use std::sync::atomic::{AtomicBool, AtomicU64, Ordering};
-use std::sync::Once;
+use std::sync::{Mutex, Once};
 use std::time::Duration;
 
 pub const LIMIT_S: u64 = 20;
@@ -17,6 +17,20 @@ static BEAT: AtomicU64 = AtomicU64::new(0);
 static ACTIVE: AtomicBool = AtomicBool::new(false);
 static COORD: [AtomicU64; 4] = [AtomicU64::new(0), AtomicU64::new(0), AtomicU64::new(0), AtomicU64::new(0)];
 static START: Once = Once::new();
+/// (format/alphabet label, chunking, input bytes) of the case being executed (C15 only: inputs are small)
+static INPUT: Mutex<(String, String, Vec<u8>)> = Mutex::new((String::new(), String::new(), Vec::new()));
+
+/// Remember the input of the case about to run so that a watchdog abort can print a replayable case.
+pub fn set_input(label: &str, chunking: &str, data: &[u8]) {
+    if let Ok(mut g) = INPUT.lock() {
+        g.0.clear();
+        g.0.push_str(label);
+        g.1.clear();
+        g.1.push_str(chunking);
+        g.2.clear();
+        g.2.extend_from_slice(data);
+    }
+}
 
 /// Advance the heartbeat; (a, b, c, d) identify the work item (property / reader / file / position).
 #[inline]
@@ -58,6 +72,11 @@ pub fn start() {
                         COORD[2].load(Ordering::Relaxed),
                         COORD[3].load(Ordering::Relaxed)
                     );
+                    if let Ok(g) = INPUT.lock() {
+                        if !g.0.is_empty() {
+                            eprintln!("WATCHDOG: last input handed to a reader: {} chunking {} bytes {:?}", g.0, g.1, g.2);
+                        }
+                    }
                     std::process::exit(3);
                 }
             }
